@@ -2,5 +2,6 @@ SPECIFICATION Spec
 CONSTANTS
   Defect = "zerodefault"
   MaxChanges = 1
+  FocusKeys = {}
 INVARIANT ZeroIsMeaningful
 CHECK_DEADLOCK FALSE
